@@ -33,7 +33,10 @@ MANIFEST = {
             "older object' and 'the guard is the only parentless object'): C05_shutdown_returns_after_everyone_partial — in every run, the "
             "very step that sets the closed flag (what Shutdown returns on) leaves the registry EMPTY and every actor object terminated; "
             "the flag is set only by the guard finishing with an empty children table, and every other registered object would have a "
-            "well-founded chain of registered ancestors ending in that table. C05_graceful_request_queued_behind_partial (Kernel/Queue.v: a graceful request is appended behind every user "
+            "well-founded chain of registered ancestors ending in that table. Liveness is refuted for GRACEFUL termination: "
+            "C05_graceful_shutdown_completes_refuted (a descendant suspended after a failure never takes the graceful request — a user "
+            "message — when its supervisor's decision does not release it: Shutdown(true) hangs; open finding, found by the lockstep "
+            "search with seed 301). C05_graceful_request_queued_behind_partial (Kernel/Queue.v: a graceful request is appended behind every user "
             "message already queued and the mailbox is consumed in order). The former witness of a lifecycle-handler panic blocking "
             "Shutdown is repaired in /repo (example C05_panic_in_onterminate_no_longer_blocks_shutdown). Graceful drain, closed flag and "
             "empty registry are checked per run by step-by-step equality with the model and the C05 monitors. "
@@ -59,7 +62,7 @@ MANIFEST = {
             "clause from the harness's own facts.",
     "note": "Partial: the hierarchy and shutdown theorems carry two hypotheses on the scripts (no spawn from an actor's own OnTerminated "
             "handler — the open orphan finding is exactly that case — and no spawn under a system address); the graceful-drain clause is "
-            "decided per run (correspondence + monitors; its queue-order half is a theorem). Three open findings (two orphan, one pending ask). Same trusted base as C03. "
+            "decided per run (correspondence + monitors; its queue-order half is a theorem). Four open findings (two orphan, one pending ask, one graceful stop of a suspended descendant). Same trusted base as C03. "
             "Temporary addresses: 'no temporary address after Shutdown' is proved only for a "
             "Shutdown that happens after every ask has been answered or has timed out; for asks pending at Shutdown it is refuted and the "
             "monitor reports it (state=pending) as the known finding C05-pending-ask-outlives-shutdown; a registered address in any other "
